@@ -26,6 +26,8 @@ NOTES = {
  "C13-2": "missed at first; caught by the alias-completion failure outcome in the request-level tier",
  "C17-3": "missed at first; caught after the default-chain gate replay switched the client limiter on and sends a denied source a changing cookie",
  "C19-1": "missed at first; caught by EcsDenial.tla + replay (wire-born ECS request with forwarding off must not consume or create a shared cut)",
+ "C19-2": "missed at first (one invalid setting was replayed: forward_v4 out of range); caught after four invalid configurations rotate through the Serve replay",
+ "C19-3": "missed at first; caught after the scripted authority puts NSID / COOKIE+EDE options in front of the subnet option of its reply",
  "C20-1": "missed at first (a translated non-embedding was booked as drift); now a violation: an ip6.arpa name is translated only if it is the RFC 6052 embedding of the address it maps to",
  "C20-2": "missed at first; caught after stacked EDE options (an unrelated EDE in front of the DNSSEC one) were added to the decision-table replay",
  "C20-3": "missed at first; caught after the configuration with the operator prefix listed before the well-known one (both2)",
